@@ -185,3 +185,16 @@ Example C05_roundtrip_example :
   TbCast.tb_set_enum (Sh 2 true) [-2; 1] (-2) = Data.Okz (-2) /\ TbCast.tb_get_enum [-2; 1] (-2) = Data.Okz (-2) /\
   TbCast.tb_get_offset 3 (TbCast.tb_set_offset 4 3 9) = 9.
 Proof. vm_compute. repeat split. Qed.
+
+(* ctx.set on an assignable target never raises "cannot be assigned" (the lazily raised ValueError of _eval_assign_inner),
+   whatever the selectors hold and whichever window is written *)
+Theorem C05_assignable_never_rejected lhs : wf_lhs lhs = true ->
+  forall curr start len, TbCast.tb_assign_err curr lhs start len = false.
+Proof. exact (TbCastP.tb_assign_no_error lhs). Qed.
+Print Assumptions C05_assignable_never_rejected.
+(* … while a target with a constant part is rejected only when the write reaches that part *)
+Example C05_lazy_reject_example :
+  let t := ESwitch (ESig 1 (Sh 1 false)) [(Some [[Some false]], ESig 0 (Sh 2 false)); (None, EConst 0 (Sh 2 false))] in
+  TbCast.tb_set_err (fun _ => 0) t = false /\ TbCast.tb_set_err (fun _ => 1) t = true /\
+  TbCast.tb_set_err (fun _ => 0) (ECat [ESig 0 (Sh 2 false); EConst 0 (Sh 0 false)]) = false.
+Proof. vm_compute. repeat split. Qed.
